@@ -145,6 +145,50 @@ func Faults(v *vrt.Ctx) {
 			}
 		}
 	}
+	if v.Param("close") == 1 && v.Choice("ending", 2) == 1 {
+		// the history ends with Close while faults are still possible: Close
+		// commits what an explicit transaction holds, and a commit that fails
+		// is reported, its writes are not there afterwards
+		faulted = false
+		wasMulti := multi
+		err := store.Close(ctx)
+		if faulted {
+			v.Assert(err != nil, "C13/failed-step-reports-error")
+		}
+		if wasMulti {
+			everStopped = true
+			if err == nil {
+				for key, val := range pend {
+					ack[key] = val
+				}
+				v.Cover("C13/closed-with-a-transaction-pending")
+			} else {
+				v.Cover("C13/close-reported-the-failed-commit")
+			}
+		}
+		budget = 0
+		v.Finding("F19-after-an-explicit-transaction-ended", everStopped)
+		v.Assert(srv.OpenTxs() == 0, "C13/no-transaction-left-open")
+		for _, t := range srv.Txs {
+			v.Assert(!t.UsedAfter, "C13/transaction-used-after-its-end")
+			if t.Ended {
+				v.Assert(t.Committed+t.RolledBack == 1, "C13/transaction-ended-exactly-once")
+			}
+		}
+		fresh := postgres.NewPgDb().WithConnection(srv)
+		fresh.SetPrefix(db.DATATYPE_USERDATA)
+		for _, key := range keys {
+			got, err := fresh.Get(ctx, []byte(key))
+			want, have := ack[key]
+			if have {
+				v.Assert(err == nil && string(got) == want, "C13/acknowledged-writes-survive")
+			} else {
+				v.Assert(err != nil && db.IsNotFound(err), "C13/unacknowledged-writes-are-absent")
+			}
+		}
+		v.Cover("C13/history-done")
+		return
+	}
 	// once the faults are gone the store works and returns exactly the
 	// acknowledged writes
 	budget = 0
